@@ -565,11 +565,21 @@ def translate(ctx):
     of `__init__`).  Raises Untranslatable when the source has left the fragment (golden fallback, tie C only)."""
     from translate import centrality
     src = common.read_src("CentralityClasses.py")
-    text, regions = centrality.render(src)
-    common.write_if_changed(common.LEAN / "SparkxVerif/Gen/Centrality.lean", text)
     golden = common.LEAN / "golden/Gen/Centrality.lean"
+    gi = centrality.golden_init_section(golden.read_text()) if golden.exists() else None
+    text, regions = centrality.render(src, golden_init=gi)
+    common.write_if_changed(common.LEAN / "SparkxVerif/Gen/Centrality.lean", text)
     ctx.cov["gen_equals_golden"] = golden.exists() and golden.read_text() == text
+    init_t = regions[2]["tie"].startswith("T")
     ctx.cov["tie"] = ("T + C: __create_centrality_classes (guards, ranking, cut-index expression, class loop, stored "
-                      "min/max) and get_centrality_class regenerated and proved equal to the model; edge cleaning in "
-                      "__init__ and the float evaluation of int(n*c/100.0) by correspondence")
+                      "min/max), get_centrality_class" + (" and the edge cleaning of __init__" if init_t else "") +
+                      " regenerated and proved equal to the model; the float evaluation of int(n*c/100.0)" +
+                      ("" if init_t else " and the edge cleaning of __init__ (golden model, translator could not re-derive)") +
+                      " by correspondence")
+    if not init_t:
+        # region-wise golden fallback (DESIGN 2.1 (i)) for the edge cleaning: the correspondence run is enlarged as it
+        # is when the whole translator falls back
+        ctx.fallback = True
+        ctx.cov["golden_restored"] = ["Centrality.lean: __init__ section"]
+        ctx.notes.append("edge cleaning of __init__ is outside the translated fragment: " + regions[2]["tie"])
     return regions
